@@ -378,6 +378,36 @@ def r6_inverse_map(m):
             and isinstance(n.func.value, ast.Constant) and isinstance(n.func.value.value, str)]
     prefixy = [x for x in fmts if x.endswith("{0}") or x.endswith("{}")]
     ok = (iter_ok and bounded) or not prefixy
+    # the same discipline where the map is built: keys nested in a map entry are expanded occurrence by occurrence
+    r.instances += 1
+    nest = [lp for lp in A.body_nodes(srm.node) if isinstance(lp, ast.For) and
+            any(isinstance(c, ast.Call) and isinstance(c.func, ast.Attribute) and c.func.attr == "replace" and len(c.args) >= 2
+                and isinstance(c.args[1], ast.Subscript) for s_ in lp.body for c in ast.walk(s_)) and isinstance(lp.target, ast.Name)
+            and not any(isinstance(x, ast.For) for s_ in lp.body for x in ast.walk(s_))]
+    if len(nest) != 1:
+        r.error("string_replace_map: the loop expanding keys nested in a map entry was not found (anchor changed)")
+    else:
+        lp = nest[0]
+        src_ = lp.iter
+        if isinstance(src_, ast.Name):
+            defs = [n.value for n in A.body_nodes(srm.node) if isinstance(n, ast.Assign) and any(A.text(t) == src_.id for t in n.targets)]
+        else:
+            defs = [src_]
+
+        def occurrence_list(v):
+            return isinstance(v, ast.Call) and "findall" in A.text(v.func) and \
+                not any(isinstance(c, ast.Call) and A.dotted(c.func) in ("set", "frozenset", "sorted", "dict.fromkeys") for c in ast.walk(v))
+        multi = bool(defs) and all(occurrence_list(v) for v in defs)
+        reps2 = [c for s_ in lp.body for c in ast.walk(s_) if isinstance(c, ast.Call) and isinstance(c.func, ast.Attribute) and c.func.attr == "replace"]
+        once = bool(reps2) and all(len(c.args) >= 3 and A.const(c.args[2]) == 1 for c in reps2)
+        ok2 = multi and once
+        r.ob(ok2, "string_replace_map: nested keys expanded per occurrence: iterates the findall() list: %s; replace count 1: %s" % (multi, once))
+        if not ok2:
+            r.fail("string_replace_map|nested-expansion", "string_replace_map expands the keys nested in a map entry %s: a key occurring twice in one "
+                   "parenthesised group (`g(1.0d-3, 1.0d-3, 5.0e0)`) is then expanded once only / all at once, and the placeholder left "
+                   "behind is re-bound to a different literal one level down" % (
+                       "over the distinct keys rather than the occurrences" if not multi else "without bounding the replacement to one occurrence"),
+                   m.loc(srm, lp))
     r.ob(ok, "StringReplaceDict.__call__: iterates the findall() occurrences: %s; bounded replace: %s; prefix-prone key formats: %s" % (iter_ok, bounded, prefixy))
     if not ok:
         r.fail("StringReplaceDict.__call__|unbounded", "StringReplaceDict.__call__ %s while the key format %s makes one placeholder a prefix of another "
@@ -420,7 +450,7 @@ def run(m, tier):
     for f in cons.findings:
         f.rule = "C02.S4"
     results = [r1_leaves_keep_text(m), r2_replace_map(m), r3_program_units(m, ctx), r4_reader_errors(m), r5_labels_names(m, ctx, blocks),
-               r6_inverse_map(m), r7_restore_order(m), rr.rule_splitquote(m, "C02.R8"), engine_tables.string_rules(m, "C02.R9"), rr.rule_literal_folding(m, "C02.R10")] + shared + [cons]
+               r6_inverse_map(m), r7_restore_order(m), rr.rule_splitquote(m, "C02.R8"), engine_tables.string_rules(m, "C02.R9"), rr.rule_literal_folding(m, "C02.R10"), rr.rule_semicolon(m, "C02.R11")] + shared + [cons]
     expl = ("Decides structural clauses of C02 -- no place where content is dropped, duplicated or case-folded: literal-bearing leaves "
             "store the input text without case folding; in all functions that tokenise a line, no child node is built from text that "
             "still carries placeholders (path-sensitive may-taint with the map call as sanitiser); Program.match returns what it "
